@@ -763,6 +763,20 @@ class Check(PropertyCheck):
                     for c in cuts:
                         yield {"kind": "e2e", "deflate": 0, "cpiggy": [], "spiggy": [fr1, fr2], "sseg": [c], "script": follow, "policy": []}
 
+    def _uinc_case(self, rng):
+        """the payloads of the frames of one text message, cut at arbitrary BYTE positions (also inside characters),
+        valid text mostly, sometimes byte soup / a truncated last character"""
+        r = rng.random()
+        if r < 0.7: b = self._text(rng, rng.randint(0, 24))
+        elif r < 0.85: b = self._text(rng, rng.randint(1, 12))[:-1]
+        else: b = bytes(rng.pick(SOUP) for _ in range(rng.randint(1, 10)))
+        k = rng.randint(1, 5)
+        cuts = sorted(rng.randint(0, len(b)) for _ in range(k - 1))
+        parts, prev = [], 0
+        for c in cuts + [len(b)]:
+            parts.append(b[prev:c]); prev = c
+        return {"kind": "uinc", "chunks_hex": [hx(x) for x in parts]}
+
     def _wire_case(self, rng):
         client = rng.randint(0, 1)            # role of the receiver; the sender masks iff the receiver is the server
         frames, open_msg, valid, mtext = [], False, True, False
@@ -910,6 +924,8 @@ class Check(PropertyCheck):
                 yield self._deflate_case(rng)
             elif r < 0.10:
                 yield self._wire_case(rng)
+            elif r < 0.13:
+                yield self._uinc_case(rng)
             elif r < 0.16:
                 yield {"kind": "san", "data_hex": hx(bytes(rng.pick(SOUP) if rng.chance(0.8) else rng.getrandbits(8) for _ in range(rng.randint(1, 24))))}
             elif r < 0.955:
@@ -933,6 +949,16 @@ class Check(PropertyCheck):
                     assert isinstance(m, WE.BytesMessage)
                     frames.append([hx(bytes(m.data)), int(m.message_finished)])
             return {"frames": frames}
+        if k == "uinc":
+            # wsproto's MessageDecoder: one strict incremental UTF-8 decoder per text message, final on the last frame
+            dec = codecs.getincrementaldecoder("utf-8")()
+            chunks = [unhx(c) for c in case["chunks_hex"]]
+            out = []
+            try:
+                for i, c in enumerate(chunks): out.append(hx(dec.decode(c, i == len(chunks) - 1).encode()))
+            except UnicodeDecodeError:
+                return {"out": "fail"}
+            return {"out": ",".join(out)}
         if k == "wire": return run_wire(case)
         obs = run_e2e(case) if k == "e2e" else run_layer(case)
         self._last = (case, obs.pop("lines"))
@@ -958,6 +984,13 @@ class Check(PropertyCheck):
             if content == b"".join(frags) and frags and (not case["text"] or all(valid_utf8(f) for f in frags)):
                 if [p for p, _ in frames] != frags:
                     fails.append("unmodified message re-fragmented: " + str([len(p) for p, _ in frames]) + " vs " + str([len(f) for f in frags]))
+            return fails
+        if k == "uinc":
+            joined = b"".join(unhx(c) for c in case["chunks_hex"])
+            if valid_utf8(joined):
+                got = None if obs["out"] == "fail" else b"".join(unhx(c) for c in obs["out"].split(","))
+                if got != joined: fails.append(f"incremental decoding of valid text {joined.hex()} gave {obs['out']}")
+            elif obs["out"] != "fail": fails.append(f"invalid text {joined.hex()} was decoded to {obs['out']}")
             return fails
         if k == "wire":
             # wsproto law used by the relay theorems: frames out = frames in (unmodified, complete, well-formed streams)
@@ -1068,6 +1101,7 @@ class Check(PropertyCheck):
         if k == "frag":
             lens = ",".join(str(len(unhx(f))) for f in case["frags_hex"]) or "-"
             return [f"frag {case['text']} {lens} {case['content_hex']}"]
+        if k == "uinc": return ["uinc " + ",".join(case["chunks_hex"])]
         if k == "wire":
             h = hx(wire_bytes(case))
             lines = [f"fdec {case['client']} {h}"]
@@ -1082,6 +1116,7 @@ class Check(PropertyCheck):
         return ["reset", "policy " + " ".join(case.get("policy", []))] + lines + ["state"]
 
     def model_obs(self, case, replies):
+        if case["kind"] == "uinc": return replies[0]
         if case["kind"] == "wire":
             fr, tail = replies[0].rsplit(" | ", 1)
             frames = [] if fr == "-" else [".".join([t.split(".")[0], t.split(".")[2], t.split(".")[4]]) for t in fr.split(" ")]
@@ -1103,6 +1138,7 @@ class Check(PropertyCheck):
         k = case["kind"]
         if k == "san": return obs["out"]
         if k == "frag": return ";".join(p + ("!" if fin else "+") for p, fin in obs["frames"])
+        if k == "uinc": return obs["out"]
         if k == "wire":
             out = {"frames": obs["frames"], "fail": obs["fail"]}
             if case.get("events"): out["events"] = obs["events"]
@@ -1116,6 +1152,7 @@ class Check(PropertyCheck):
         k = case["kind"]
         if k == "san": return ("san", case["data_hex"])
         if k == "frag": return ("frag", case["text"], tuple(case["frags_hex"]), case["content_hex"])
+        if k == "uinc": return ("uinc", tuple(case["chunks_hex"]))
         if k == "wire": return ("wire", case["client"], hx(wire_bytes(case)))
         return (k, str(virtual_script(case)), str(case.get("sseg")), str(case["policy"]), case["deflate"])
 
@@ -1134,6 +1171,8 @@ class Check(PropertyCheck):
                     lens = [len(unhx(p)) for p, _ in obs["frames"]]
                     if len(content) != sum(map(len, frags)) and any(l not in (FS, 0) for l in lens[:-1]): out.append("frag:cut-moved-back")
             return out
+        if k == "uinc":
+            return ["uinc:fail" if obs["out"] == "fail" else "uinc:ok", "uinc:chunks=%d" % min(len(case["chunks_hex"]), 4)]
         if k == "wire":
             out = ["wire:fail" if obs["fail"] else "wire:ok", "wire:nframes=%d" % min(len(obs["frames"]), 4)]
             for f in case["frames"]:
